@@ -276,6 +276,85 @@ def upload(shape_i, dest_i, write_into, cwd_c, legacy=False):
     return True
 
 
+def _image(want, shape, cwd, dest, write_into):
+    base = M.resolve(cwd, dest)
+    root = base if write_into else M.resolve(base, "foo")
+    if shape["foo"] == "dir":
+        with_parents(want, root)
+        for k, v in shape.items():
+            if k != "foo":
+                want[root.rstrip("/") + "/" + k[len("foo/"):]] = v
+    else:
+        with_parents(want, M.parent(root))
+        want[root] = shape["foo"]
+    return root
+
+
+REL_DESTS = ["x", "x/y", "", "deep/er"]
+
+
+def upload_history(shape_i, dest_i, write_into, variant, legacy=False):
+    """two operations on ONE client session (the client must not remember what it did before):
+    variant 0: upload to a relative destination from /c, change the working directory to /d, upload to the same relative destination;
+    variant 1: upload, remove the uploaded tree under its absolute spelling, upload again;
+    variant 2: upload, then download what was uploaded into a fresh local directory: same structure and contents"""
+    hb.KEY = ""
+    legacy = bool(legacy)
+    shape = SHAPES[hb.conc(shape_i, 0, len(SHAPES) - 1)]
+    dest = REL_DESTS[hb.conc(dest_i, 0, len(REL_DESTS) - 1)]
+    variant = hb.conc(variant, 0, 2)
+    if not write_into and False:
+        return True
+    local = {"/local": "dir"}
+    for k, v in shape.items():
+        local["/local/" + k] = v
+    remote0 = dict(REMOTE0)
+    remote0["/d"] = "dir"
+    c, peer = mk_client(remote0, "/c", local, legacy)
+    loop = hb.new_loop()
+    want = dict(remote0)
+    root1 = _image(want, shape, "/c", dest, write_into)
+    if root1 in ("/c", "/d", "/"):
+        return True  # write_into with an empty destination: the image is the working directory itself (covered by upload())
+
+    async def run():
+        await c.upload("/local/foo", dest, write_into=write_into, block_size=2)
+        if variant == 0:
+            await c.change_directory("/d")
+            await c.upload("/local/foo", dest, write_into=write_into, block_size=2)
+        elif variant == 1:
+            await c.remove(root1)
+            await c.upload("/local/foo", dest, write_into=write_into, block_size=2)
+        else:
+            await c.download(root1, "/back", write_into=True, block_size=2)
+
+    try:
+        loop.run_until_complete(run())
+    except (aioftp.StatusCodeError, aioftp.PathIOError):
+        hb.KEY = "history-refused"
+        return False
+    if variant == 0:
+        _image(want, shape, "/d", dest, write_into)
+    hb.path_done("c09_history", "")
+    if peer.tree != want:
+        hb.KEY = "history-remote-tree"
+        return False
+    if variant == 2:
+        got = local_snapshot(c.path_io)
+        exp = dict(local)
+        if shape["foo"] == "dir":
+            exp["/back"] = "dir"
+            for k, v in shape.items():
+                if k != "foo":
+                    exp["/back/" + k[len("foo/"):]] = v
+        else:
+            exp["/back"] = shape["foo"]
+        if got != exp:
+            hb.KEY = "history-local-tree"
+            return False
+    return True
+
+
 def download(shape_i, dest_i, write_into, cwd_c, legacy=False):
     hb.KEY = ""
     legacy = bool(legacy)
